@@ -180,6 +180,13 @@ func (d dissecting) Dissect(b *bufio.Reader, reader api.TcpReader) error {
 				)
 				item := reqResMatcher.registerRequest(ident, req, reader.GetCaptureTime(), reader.GetReadProgress().Current(), req.ProtoMinor)
 				if item != nil {
+					// the response arrived first on stream 1: this is an HTTP/2 item like the ones
+					// handleHTTP2Stream completes
+					if isGrpcPair(item.Pair) {
+						item.Protocol = grpcProtocol
+					} else {
+						item.Protocol = http2Protocol
+					}
 					item.ConnectionInfo = &api.ConnectionInfo{
 						ClientIP:   reader.GetTcpID().SrcIP,
 						ClientPort: reader.GetTcpID().SrcPort,
